@@ -352,8 +352,8 @@ def selftest():
 
 
 SUBCHECKS = [
-    Sub('C15.int_ranges', run_int, strategy=int_case, examples={'quick': 20000, 'thorough': 300000}),
-    Sub('C15.length_validity', run_length, strategy=length_case, examples={'quick': 10000, 'thorough': 150000}),
-    Sub('C15.text_digits', run_text, strategy=text_case, examples={'quick': 8000, 'thorough': 100000}),
-    Sub('C15.source_windows', run_window, strategy=window_case, examples={'quick': 8000, 'thorough': 100000}),
+    Sub('C15.int_ranges', run_int, strategy=int_case, examples={'quick': 20000, 'thorough': 300000}, ambient=('bytealigned',)),
+    Sub('C15.length_validity', run_length, strategy=length_case, examples={'quick': 10000, 'thorough': 150000}, ambient=('bytealigned',)),
+    Sub('C15.text_digits', run_text, strategy=text_case, examples={'quick': 8000, 'thorough': 100000}, ambient=('bytealigned',)),
+    Sub('C15.source_windows', run_window, strategy=window_case, examples={'quick': 8000, 'thorough': 100000}, ambient=('bytealigned',)),
 ]
